@@ -24,7 +24,7 @@ pub fn def() -> CheckDef {
 }
 
 fn info(tier: Tier) -> CheckInfo {
-    CheckInfo {
+    let mut ci = CheckInfo {
         id: "C13",
         level: "model_checking",
         rule: format!(
@@ -34,7 +34,9 @@ fn info(tier: Tier) -> CheckInfo {
             "{8, 20}"
         ),
         assumptions: vec!["loss-free network, 10 ms latency (slow-link part: 300..600 ms)".into(), "sizes above 20 are not explored (bucket overflow is C12's)".into()],
-    }
+    };
+    ci.rule.push_str(" Added: Info accessors and to_bootstrap() compared with every node's state right after the joins and at the end; the library's own blocking Testnet::new(n) run inside the simulated world and judged the same way.");
+    ci
 }
 
 const TIMINGS: [&str; 5] = ["sequential", "simultaneous", "after-1-event", "after-2-events", "after-3-events"];
